@@ -15,6 +15,11 @@ RULE = (
     "distinct = blake2b(payload); non-trivial = payload longer than its identity header. The header space is enumerated "
     "completely (exhaustive: true for the (number, sub-type) space, not for tails)"
 )
+RULE += (
+    ' Also: payloads as bytearray / subclass / memoryview; bits behind the number all ones / all zeros;'
+    ' frames read back through a reader (CRC-colliding neighbours, frames used as payloads, a stream that'
+    ' pauses once between frames and is iterated again).'
+)
 ASSUMPTIONS = ["the set of implemented identities is read from the repository's tables (as data); the 49 MSM numbers "
                "and the block 1070-1229 are pinned"]
 GATES = ["numbers_checked", "subtypes_checked", "stubs_checked", "df002_checked", "ismsm_true_checked",
